@@ -493,6 +493,11 @@ def success_result_lits(fb, facts):
         if d.kind == "call":
             if d.term.callee is not None and d.term.callee.name == "from_residual":
                 continue        # the `?` error path
+            if d.term.callee is not None and d.term.callee.name in ("then", "then_some") and d.term.args:
+                # `cond.then(|| v)`: Some exactly when cond holds
+                ct = du.operand_term(d.term.args[0], 22)
+                per_site.append(list(lits_of(fb, d.block, facts)) + [_decode_bool(_strip_var(ct), True, d.block, ct)])
+                continue
             return []
         if d.kind != "assign":
             return []
